@@ -14,7 +14,7 @@ those source functions changes the generated text and these proofs (by `rfl`) st
 sampling.
 -/
 namespace TieSolver
-open Scalar PyOps
+open Scalar PyOps Solver
 variable {α : Type} [Scalar α]
 
 theorem phiAndQaz_generated (chi eta mu : α) (V : M3 α) : Gen.get_phi_and_qaz chi eta mu V = Solver.phiAndQaz chi eta mu V := rfl
@@ -100,6 +100,37 @@ theorem sampleConChiPhi_generated (chi phi qaz theta : α) (N : M3 α) :
 
 theorem sampleConOmegaBisect_generated (omega qaz theta : α) (N : M3 α) :
     Gen.calc_sample_con_omega_bisect omega qaz theta N = Solver.sampleConOmegaBisect omega qaz theta N := rfl
+
+/-! the two bisect branches whose candidate lists are built by `extend` in a loop (-> `flatMap`) after an if-tree with early `return`s: the
+translator keeps the product with the one-element list of the constrained axis, the hand model had simplified it away — equal by the two `forM'`
+lemmas below, not by `rfl` -/
+
+theorem forM'_map {β γ δ : Type} (A : List β) (h : β → γ) (g : γ → Py (List δ)) :
+    forM' (A.map h) g = forM' A (fun x => g (h x)) := by
+  induction A with
+  | nil => rfl
+  | cons a A ih => simp only [List.map_cons, forM', ih]
+
+theorem forM'_flatMap_single {β γ δ : Type} (A : List β) (h : β → γ) (g : γ → Py (List δ)) :
+    forM' (A.flatMap fun x => [h x]) g = forM' A (fun x => g (h x)) := by
+  induction A with
+  | nil => rfl
+  | cons a A ih => simp only [List.flatMap_cons, List.singleton_append, forM', ih]
+
+theorem sampleConEtaBisect_generated (eta qaz theta : α) (N : M3 α) :
+    Gen.calc_sample_con_eta_bisect eta qaz theta N = Solver.sampleConEtaBisect eta qaz theta N := by
+  unfold Gen.calc_sample_con_eta_bisect Solver.sampleConEtaBisect
+  simp only [List.map_cons, List.map_nil, forM'_flatMap_single]
+  rfl
+
+theorem sampleConMuBisect_generated (mu qaz theta : α) (N : M3 α) :
+    Gen.calc_sample_con_mu_bisect mu qaz theta N = Solver.sampleConMuBisect mu qaz theta N := by
+  unfold Gen.calc_sample_con_mu_bisect Solver.sampleConMuBisect
+  by_cases h1 : isSmall (cos qaz) = true
+  · by_cases h2 : isSmall (tan mu) = true
+    · simp only [h1, h2, if_true, List.flatMap_cons, List.flatMap_nil, List.append_nil, forM'_map]; rfl
+    · simp only [h1, h2, if_true, Bool.false_eq_true, if_false, List.flatMap_cons, List.flatMap_nil, List.append_nil, forM'_map]
+  · simp only [h1, Bool.false_eq_true, if_false, List.flatMap_cons, List.flatMap_nil, List.append_nil, forM'_map]; rfl
 
 /-! the numeric primitives everything else is built from (`util.py`): the tolerance constant, `bound`, `sign` -/
 
